@@ -77,6 +77,7 @@ func cmdCheck(args []string) int {
 	solver := fs.String("solver", "z3-new", "incremental solver: z3-new|z3|cvc5")
 	maxPaths := fs.Int64("max-paths", 0, "path limit per harness (0 = none)")
 	cpuprof := fs.String("cpuprofile", "", "write CPU profile")
+	evDir := fs.String("evidence-dir", "", "write evidence and replay files here instead of /verif/evidence (seeded-change runs)")
 	var prop string
 	if len(args) > 0 && !strings.HasPrefix(args[0], "-") {
 		prop = args[0]
@@ -89,6 +90,9 @@ func cmdCheck(args []string) int {
 	}
 	if *tier == "" {
 		*tier = "quick"
+	}
+	if *evDir != "" {
+		evidenceDirOverride = *evDir
 	}
 	seed := envInt("VERIF_SEED", 1)
 	start := time.Now()
@@ -252,6 +256,9 @@ func cmdCheck(args []string) int {
 	nviol := 0
 	knownPrinted := map[string]bool{}
 	replayDir := filepath.Join(verifRoot(), "replay", prop)
+	if evidenceDirOverride != "" {
+		replayDir = filepath.Join(evidenceDirOverride, "replay")
+	}
 	os.MkdirAll(replayDir, 0o755)
 	for i, k := range order {
 		v := distinct[k]
